@@ -44,32 +44,31 @@ Qed.
 Section Local.
 Variable c : bool.
 
-Lemma lstep_done : forall l, done l = true -> lstep c l = l.
+Lemma lstep_done : forall ok l, done l = true -> lstep c ok l = l.
 Proof. intros. unfold lstep. rewrite H. reflexivity. Qed.
 
-Lemma lstep_fatal : forall l, fatal l = true -> lstep c l = l.
+Lemma lstep_fatal : forall ok l, fatal l = true -> lstep c ok l = l.
 Proof. intros. unfold lstep. rewrite H. rewrite orb_true_r. reflexivity. Qed.
 
-Lemma alone_S : forall n l, alone c (S n) l = lstep c (alone c n l).
+Lemma alone_S : forall ok h l, alone c (ok :: h) l = lstep c ok (alone c h l).
 Proof. reflexivity. Qed.
 
-Lemma alone_done : forall n l, done l = true -> alone c n l = l.
-Proof. induction n; intros; auto. rewrite alone_S, IHn; auto using lstep_done. Qed.
+Lemma alone_done : forall h l, done l = true -> alone c h l = l.
+Proof. induction h; intros; auto. rewrite alone_S, IHh; auto using lstep_done. Qed.
 
-Lemma alone_add : forall n m l, alone c (n + m) l = alone c n (alone c m l).
-Proof. induction n; intros; auto. simpl plus. rewrite !alone_S, IHn. reflexivity. Qed.
+Lemma alone_add : forall h1 h2 l, alone c (h1 ++ h2) l = alone c h1 (alone c h2 l).
+Proof. intros. unfold alone. apply fold_right_app. Qed.
 
-Lemma alone_final : forall n m l, done (alone c n l) = true -> n <= m -> alone c m l = alone c n l.
-Proof.
-  intros. replace m with ((m - n) + n) by lia. rewrite alone_add. apply alone_done; auto.
-Qed.
+(* once the thread has finished, further instructions (whatever the answers) change nothing *)
+Lemma alone_final : forall h h' l, done (alone c h l) = true -> alone c (h' ++ h) l = alone c h l.
+Proof. intros. rewrite alone_add. apply alone_done; auto. Qed.
 
 Lemma do_throw_me : forall l e k, me (do_throw c l e k) = me l.
 Proof.
   intros. unfold do_throw. destruct (1 <=? depth (exc l)); [destruct (land e (depth (exc l)) k) as [[? ?]|]|]; reflexivity.
 Qed.
 
-Lemma lstep_me : forall l, me (lstep c l) = me l.
+Lemma lstep_me : forall ok l, me (lstep c ok l) = me l.
 Proof.
   intros. unfold lstep. destruct (done l || fatal l); auto.
   destruct (code l) as [|[o| | |] k]; auto.
@@ -79,8 +78,8 @@ Proof.
     rewrite do_throw_me. reflexivity.
 Qed.
 
-Lemma alone_me : forall n l, me (alone c n l) = me l.
-Proof. induction n; intros; auto. rewrite alone_S, lstep_me. auto. Qed.
+Lemma alone_me : forall h l, me (alone c h l) = me l.
+Proof. induction h; intros; auto. rewrite alone_S, lstep_me. auto. Qed.
 
 
 Lemma do_throw_reg : forall l e k, reg (do_throw c l e k) = reg l /\ fin (do_throw c l e k) = fin l.
@@ -90,9 +89,9 @@ Qed.
 
 Definition own (l : lstate) : Prop := forall o, In o (reg l) \/ In o (fin l) -> fst o = me l.
 
-Lemma lstep_own : forall l, own l -> own (lstep c l).
+Lemma lstep_own : forall ok l, own l -> own (lstep c ok l).
 Proof.
-  intros l O. unfold own. rewrite lstep_me. unfold lstep.
+  intros ok l O. unfold own. rewrite lstep_me. unfold lstep.
   destruct (done l || fatal l); auto.
   assert (T : forall e k o, In o (reg (do_throw c l e k)) \/ In o (fin (do_throw c l e k)) -> fst o = me l).
   { intros e k o. destruct (do_throw_reg l e k) as [-> ->]. apply O. }
@@ -113,8 +112,8 @@ Proof.
   - simpl. auto.
 Qed.
 
-Lemma alone_own : forall n l, own l -> own (alone c n l).
-Proof. induction n; intros; auto. rewrite alone_S. apply lstep_own; auto. Qed.
+Lemma alone_own : forall h l, own l -> own (alone c h l).
+Proof. induction h; intros; auto. rewrite alone_S. apply lstep_own; auto. Qed.
 
 Lemma linit_own : forall t p, own (linit t p).
 Proof. intros t p o [[]|[]]. Qed.
@@ -161,10 +160,10 @@ Proof.
   - simpl. intros m [].
 Qed.
 
-Lemma lstep_code : forall l, done l = false -> fatal l = false -> nostore (tl (code l)) ->
-  nostore (code (lstep c l)) \/ exists m k, code l = KOp (OIncr m) :: k /\ code (lstep c l) = KStore m :: k.
+Lemma lstep_code : forall ok l, done l = false -> fatal l = false -> nostore (tl (code l)) ->
+  nostore (code (lstep c ok l)) \/ exists m k, code l = KOp (OIncr m) :: k /\ code (lstep c ok l) = KStore m :: k.
 Proof.
-  intros l Hd Hf W. unfold lstep. rewrite Hd, Hf. simpl.
+  intros ok l Hd Hf W. unfold lstep. rewrite Hd, Hf. simpl.
   destruct (code l) as [|[o| | |] k]; simpl in W.
   - left. simpl. intros m [].
   - destruct o; simpl; auto;
@@ -172,6 +171,7 @@ Proof.
            auto using do_throw_nostore; fail).
     + left. apply nostore_app_kop; auto. discriminate.
     + left. apply nostore_app_kop; auto. discriminate.
+    + left. destruct ok; simpl; auto. apply nostore_app_kop; auto. discriminate.
     + right. eauto.
   - left. repeat match goal with |- context[match ?x with _ => _ end] => destruct x end; simpl;
       auto using do_throw_nostore, nostore_app_kop'.
@@ -179,10 +179,10 @@ Proof.
   - left. auto.
 Qed.
 
-Lemma lstep_wf : forall l, done l = false -> fatal l = false -> nostore (tl (code l)) -> nostore (tl (code (lstep c l))).
+Lemma lstep_wf : forall ok l, done l = false -> fatal l = false -> nostore (tl (code l)) -> nostore (tl (code (lstep c ok l))).
 Proof.
-  intros l Hd Hf W. destruct (lstep_code l Hd Hf W) as [N|[m [k [E1 E2]]]].
-  - destruct (code (lstep c l)); simpl; auto. eapply nostore_tail; eauto.
+  intros ok l Hd Hf W. destruct (lstep_code ok l Hd Hf W) as [N|[m [k [E1 E2]]]].
+  - destruct (code (lstep c ok l)); simpl; auto. eapply nostore_tail; eauto.
   - rewrite E2. simpl. rewrite E1 in W. exact W.
 Qed.
 
@@ -197,36 +197,38 @@ Notation R := (run c b false false).
 (* what an executed instruction of thread t does besides advancing t's own core:
    g1 = the state with the mutex table / a counter / ANOTHER thread's started-joined flag changed,
    s1 = t's new synchronisation side *)
-Inductive pre (t : tid) (g : gstate) (l : lstate) (s : sstate) : gstate -> sstate -> Prop :=
-| pre_local : pre t g l s g s
+Inductive pre (t : tid) (g : gstate) (l : lstate) (s : sstate) : gstate -> sstate -> bool -> Prop :=
+| pre_local : pre t g l s g s true
 | pre_acquire : forall m, mtx g m = None ->
-    pre t g l s (set_mtx g m (Some t)) (set_holding s (m :: holding s))
+    pre t g l s (set_mtx g m (Some t)) (set_holding s (m :: holding s)) true
 | pre_busy : forall m o, mtx g m = Some o -> b = true ->
-    pre t g l s g (set_holding s (m :: holding s))
+    pre t g l s g (set_holding s (m :: holding s)) true
+| pre_tryfail : forall m o, mtx g m = Some o -> b = false ->       (* OTryOnce refused: the section is skipped *)
+    pre t g l s g s false
 | pre_release : forall m, mtx g m = Some t ->
-    pre t g l s (set_mtx g m None) (set_holding s (rem_mid m (holding s)))
+    pre t g l s (set_mtx g m None) (set_holding s (rem_mid m (holding s))) true
 | pre_load : forall m k, code l = KOp (OIncr m) :: k -> nmem m (holding s) = true ->
-    pre t g l s g (set_tmp s (cells g m))
+    pre t g l s g (set_tmp s (cells g m)) true
 | pre_store : forall m k, code l = KStore m :: k ->
-    pre t g l s (set_cell g m (S (tmp s))) s
+    pre t g l s (set_cell g m (S (tmp s))) s true
 | pre_spawn : forall u lu su, nth_error (thr g) u = Some (lu, su) -> started su = false ->
-    pre t g l s (set_thr g u (lu, set_started su)) s
+    pre t g l s (set_thr g u (lu, set_started su)) s true
 | pre_join : forall u lu su k, code l = KOp (OJoin u) :: k ->
     nth_error (thr g) u = Some (lu, su) -> started su = true -> done lu = true -> joined su = false ->
-    pre t g l s (set_thr g u (lu, set_joined su)) s
+    pre t g l s (set_thr g u (lu, set_joined su)) s true
 | pre_peek : forall u lu su k, code l = KOp (OPeek u) :: k -> nth_error (thr g) u = Some (lu, su) ->
-    pre t g l s g (add_seen s (u, out lu)).
+    pre t g l s g (add_seen s (u, out lu)) true.
 
 Inductive shape (t : tid) (g : gstate) : gstate -> Prop :=
 | sh_same : shape t g g
 | sh_ub : forall l s, nth_error (thr g) t = Some (l, s) -> shape t g (set_thr g t (l, set_ub s))
-| sh_adv : forall l s g1 s1,
+| sh_adv : forall l s g1 s1 ok,
     nth_error (thr g) t = Some (l, s) ->
     aborted g = false -> started s = true -> done l = false -> fatal l = false -> ub s = false ->
-    pre t g l s g1 s1 ->
+    pre t g l s g1 s1 ok ->
     (forall m k, code l = KOp (OIncr m) :: k ->      (* an OIncr at the head is executed as the guarded load *)
        nmem m (holding s) = true /\ g1 = g /\ s1 = set_tmp s (cells g m)) ->
-    shape t g (advance c false g1 t l s1).
+    shape t g (advance_ok c false ok g1 t l s1).
 
 Ltac nohd := let HH := fresh in intros ? ? HH; discriminate HH.
 
@@ -240,9 +242,9 @@ Proof.
   apply orb_false_elim in Hrun. destruct Hrun as [Hrun Hfa].
   apply orb_false_elim in Hrun. destruct Hrun as [Hst Hdo].
   apply negb_false_iff in Hst.
-  assert (ADV : forall g1 s1, pre t g l s g1 s1 ->
+  assert (ADV : forall g1 s1 ok, pre t g l s g1 s1 ok ->
             (forall m k, code l = KOp (OIncr m) :: k -> nmem m (holding s) = true /\ g1 = g /\ s1 = set_tmp s (cells g m)) ->
-            shape t g (advance c false g1 t l s1))
+            shape t g (advance_ok c false ok g1 t l s1))
     by (intros; eapply sh_adv; eauto).
   assert (UB : shape t g (set_thr g t (l, set_ub s))) by (apply sh_ub; auto).
   destruct (code l) as [|[o| | |] k] eqn:Hc.
@@ -255,6 +257,9 @@ Proof.
       * simpl. destruct b eqn:Hb; [|constructor]. apply ADV; [eapply pre_busy; eauto | nohd].
       * apply ADV; [constructor; auto | nohd].
     + (* with *) unfold acquire. destruct (mtx g m) eqn:Hm; simpl; [constructor|]. apply ADV; [constructor; auto | nohd].
+    + (* try once *) destruct (mtx g m) eqn:Hm.
+      * destruct b eqn:Hb; [apply ADV; [eapply pre_busy; eauto | nohd] | apply ADV; [eapply pre_tryfail; eauto | nohd]].
+      * apply ADV; [constructor; auto | nohd].
     + (* incr *) destruct (nmem m (holding s)) eqn:Hh; auto.
       apply ADV; [eapply pre_load; eauto | intros m' k' HH; inversion HH; subst; auto].
     + (* spawn *) destruct (nth_error (thr g) t0) as [[lu su]|] eqn:Hu; auto.
@@ -272,35 +277,36 @@ Proof.
 Qed.
 
 (* ------------------------------------------------------------------ isolation *)
-Definition pc (g : gstate) : list (lstate * nat) := map (fun ls => (fst ls, steps (snd ls))) (thr g).
+(* per thread: its core and the answers its own instructions got (ghost history) *)
+Definition pc (g : gstate) : list (lstate * list bool) := map (fun ls => (fst ls, hist (snd ls))) (thr g).
 
-Lemma pc_set_thr_same : forall g u lu su su', nth_error (thr g) u = Some (lu, su) -> steps su' = steps su ->
+Lemma pc_set_thr_same : forall g u lu su su', nth_error (thr g) u = Some (lu, su) -> hist su' = hist su ->
   pc (set_thr g u (lu, su')) = pc g.
 Proof.
   intros. unfold pc, set_thr; simpl. rewrite map_upd. simpl. apply upd_same.
   rewrite nth_error_map, H. simpl. rewrite H0. reflexivity.
 Qed.
 
-Lemma pre_pc : forall t g l s g1 s1, pre t g l s g1 s1 -> pc g1 = pc g /\ steps s1 = steps s.
+Lemma pre_pc : forall t g l s g1 s1 ok, pre t g l s g1 s1 ok -> pc g1 = pc g /\ hist s1 = hist s.
 Proof.
   intros. inversion H; subst; simpl; auto; split; auto; eapply pc_set_thr_same; eauto.
 Qed.
 
 Lemma shape_pc : forall t g g', shape t g g' ->
-  pc g' = pc g \/ exists l n, nth_error (pc g) t = Some (l, n) /\ pc g' = upd (pc g) t (lstep c l, S n).
+  pc g' = pc g \/ exists l h ok, nth_error (pc g) t = Some (l, h) /\ pc g' = upd (pc g) t (lstep c ok l, ok :: h).
 Proof.
   intros. inversion H; subst; auto.
   - left. eapply pc_set_thr_same; eauto.
-  - right. exists l, (steps s). split.
+  - right. exists l, (hist s), ok. split.
     + unfold pc. rewrite nth_error_map, H0. reflexivity.
-    + destruct (pre_pc _ _ _ _ _ _ H6) as [E1 E2].
-      unfold advance; simpl. unfold pc at 1; simpl. rewrite map_upd. simpl. rewrite E2.
+    + destruct (pre_pc _ _ _ _ _ _ _ H6) as [E1 E2].
+      unfold advance_ok; simpl. unfold pc at 1; simpl. rewrite map_upd. simpl. rewrite E2.
       fold (pc g1). rewrite E1. reflexivity.
 Qed.
 
 Definition iso_inv (ps : list (list op)) (g : gstate) : Prop :=
-  forall t l n, nth_error (pc g) t = Some (l, n) ->
-    exists p, nth_error ps t = Some p /\ l = alone c n (linit t p).
+  forall t l h, nth_error (pc g) t = Some (l, h) ->
+    exists p, nth_error ps t = Some p /\ l = alone c h (linit t p).
 
 Lemma init_from_nth : forall ps k t,
   nth_error (init_from k ps) t = option_map (fun p => (linit (k + t) p, sinit (k + t =? 0))) (nth_error ps t).
@@ -312,15 +318,15 @@ Qed.
 
 Lemma iso_init : forall ps, iso_inv ps (ginit ps).
 Proof.
-  intros ps t l n H. unfold pc, ginit in H; simpl in H.
+  intros ps t l h H. unfold pc, ginit in H; simpl in H.
   rewrite nth_error_map, init_from_nth in H. simpl in H.
   destruct (nth_error ps t) eqn:E; simpl in H; inversion H; subst. eauto.
 Qed.
 
 Lemma iso_step : forall ps t g, iso_inv ps g -> iso_inv ps (G t g).
 Proof.
-  intros ps t g I. destruct (shape_pc _ _ _ (gstep_shape t g)) as [E|[l [n [Hn E]]]]; unfold iso_inv; rewrite E; auto.
-  intros t' l' n' H. destruct (Nat.eq_dec t t').
+  intros ps t g I. destruct (shape_pc _ _ _ (gstep_shape t g)) as [E|[l [h [ok [Hn E]]]]]; unfold iso_inv; rewrite E; auto.
+  intros t' l' h' H. destruct (Nat.eq_dec t t').
   - subst t'. rewrite nth_error_upd_eq in H.
     + inversion H; subst. destruct (I _ _ _ Hn) as [p [Hp Hl]]. exists p. split; auto.
       rewrite alone_S. congruence.
@@ -332,23 +338,35 @@ Lemma iso_run : forall ps sched g, iso_inv ps g -> iso_inv ps (R sched g).
 Proof. induction sched; simpl; intros; auto. apply IHsched. apply iso_step; auto. Qed.
 
 (* For EVERY schedule: the core of every thread (continuation, collector registry and finalisation
-   ledger, exception record, thread-local storage, result trace) is what the thread reaches on its
-   own after the same number of its own instructions. *)
+   ledger, exception record, thread-local storage, result trace) is a function of its OWN program and
+   of the answers its OWN trylock attempts got (hist: true everywhere except a refused OTryOnce) —
+   it is what the thread reaches on its own after the same instructions with the same answers. *)
 Theorem isolation_core : forall ps sched t l s,
   nth_error (thr (R sched (ginit ps))) t = Some (l, s) ->
-  exists p, nth_error ps t = Some p /\ l = alone c (steps s) (linit t p).
+  exists p, nth_error ps t = Some p /\ l = alone c (hist s) (linit t p).
 Proof.
-  intros. apply (iso_run ps sched _ (iso_init ps) t l (steps s)).
+  intros. apply (iso_run ps sched _ (iso_init ps) t l (hist s)).
   unfold pc. rewrite nth_error_map, H. reflexivity.
 Qed.
 
-(* a finished thread has computed exactly its complete stand-alone trace *)
-Theorem isolation_finished : forall ps sched t l s,
-  nth_error (thr (R sched (ginit ps))) t = Some (l, s) -> done l = true ->
-  exists p, nth_error ps t = Some p /\ forall n, steps s <= n -> alone c n (linit t p) = l.
+(* no try-once section was refused (in particular: the program has none): the stand-alone run proper *)
+Corollary isolation_plain : forall ps sched t l s,
+  nth_error (thr (R sched (ginit ps))) t = Some (l, s) -> forallb (fun x => x) (hist s) = true ->
+  exists p, nth_error ps t = Some p /\ l = alone_n c (steps s) (linit t p).
 Proof.
   intros. destruct (isolation_core _ _ _ _ _ H) as [p [Hp Hl]]. exists p. split; auto.
-  intros. subst l. apply alone_final; auto.
+  unfold alone_n, steps. replace (repeat true (length (hist s))) with (hist s); auto.
+  clear - H0. induction (hist s) as [|x h IH]; simpl in *; auto.
+  apply andb_true_iff in H0. destruct H0 as [-> H0]. f_equal. auto.
+Qed.
+
+(* a finished thread has computed exactly its complete stand-alone result (whatever comes after) *)
+Theorem isolation_finished : forall ps sched t l s,
+  nth_error (thr (R sched (ginit ps))) t = Some (l, s) -> done l = true ->
+  exists p, nth_error ps t = Some p /\ forall h', alone c (h' ++ hist s) (linit t p) = l.
+Proof.
+  intros. destruct (isolation_core _ _ _ _ _ H) as [p [Hp Hl]]. exists p. split; auto.
+  intros. subst l. apply alone_final. auto.
 Qed.
 
 Lemma pc_fst : forall g, map fst (pc g) = map fst (thr g).
@@ -358,7 +376,7 @@ Proof. intros. unfold pc. rewrite map_map. apply map_ext. reflexivity. Qed.
 Theorem step_frame : forall t t' g, t <> t' -> core (G t g) t' = core g t'.
 Proof.
   intros. unfold core. rewrite <- !nth_error_map, <- !pc_fst.
-  destruct (shape_pc _ _ _ (gstep_shape t g)) as [E|[l [n [Hn E]]]]; rewrite E; auto.
+  destruct (shape_pc _ _ _ (gstep_shape t g)) as [E|[l [h [ok [Hn E]]]]]; rewrite E; auto.
   rewrite map_upd. apply nth_error_upd_ne; auto.
 Qed.
 
@@ -373,11 +391,11 @@ Proof.
 Qed.
 
 (* ------------------------------------------------------------------ lookups after a step *)
-Lemma adv_lookup : forall g1 t l s1 t' l' s',
-  nth_error (thr (advance c false g1 t l s1)) t' = Some (l', s') ->
-  (t' = t /\ l' = lstep c l /\ s' = bump s1) \/ (t' <> t /\ nth_error (thr g1) t' = Some (l', s')).
+Lemma adv_lookup : forall ok g1 t l s1 t' l' s',
+  nth_error (thr (advance_ok c false ok g1 t l s1)) t' = Some (l', s') ->
+  (t' = t /\ l' = lstep c ok l /\ s' = bump ok s1) \/ (t' <> t /\ nth_error (thr g1) t' = Some (l', s')).
 Proof.
-  intros. unfold advance in H; simpl in H. apply nth_error_upd_some in H.
+  intros. unfold advance_ok in H; simpl in H. apply nth_error_upd_some in H.
   destruct H as [[? E]|[? ?]]; [left|right]; auto. inversion E; auto.
 Qed.
 
@@ -401,7 +419,7 @@ Qed.
 
 Lemma mx_step : b = false -> forall t g, mx_inv g -> mx_inv (G t g).
 Proof.
-  intros Hb t g I. destruct (gstep_shape t g) as [|l s Ht|l s g1 s1 Ht Hab Hst Hdo Hfa Hub P PI]; auto.
+  intros Hb t g I. destruct (gstep_shape t g) as [|l s Ht|l s g1 s1 ok Ht Hab Hst Hdo Hfa Hub P PI]; auto.
   - intros t' l' s' m H Hin. apply set_thr_lookup in H. destruct H as [[-> E]|[Hne H]].
     + inversion E; subst. simpl in Hin. eapply I; eauto.
     + eapply I; eauto.
@@ -463,38 +481,38 @@ Definition inc_inv (g : gstate) : Prop :=
     forall m k, code l = KStore m :: k -> In m (holding s) /\ tmp s = cells g m.
 
 (* the other threads' entries of g1 are those of g up to the started/joined flags *)
-Lemma pre_other : forall t g l s g1 s1, pre t g l s g1 s1 ->
+Lemma pre_other : forall t g l s g1 s1 ok, pre t g l s g1 s1 ok ->
   forall t' l' s', nth_error (thr g1) t' = Some (l', s') ->
     exists s0, nth_error (thr g) t' = Some (l', s0) /\ holding s' = holding s0 /\ tmp s' = tmp s0.
 Proof.
-  intros t g l s g1 s1 P t' l' s' H.
+  intros t g l s g1 s1 ok P t' l' s' H.
   inversion P; subst; simpl in H; try (exists s'; auto; fail);
     apply nth_error_upd_some in H; destruct H as [[<- E]|[? H]]; try (exists s'; auto; fail);
     inversion E; subst; exists su; auto.
 Qed.
 
-Lemma pre_cells : forall t g l s g1 s1, pre t g l s g1 s1 ->
+Lemma pre_cells : forall t g l s g1 s1 ok, pre t g l s g1 s1 ok ->
   cells g1 = cells g \/ exists m k, code l = KStore m :: k /\ cells g1 = fupd (cells g) m (S (tmp s)).
 Proof. intros. inversion H; subst; simpl; eauto. Qed.
 
 Lemma inc_step : b = false -> forall t g, mx_inv g -> inc_inv g -> inc_inv (G t g).
 Proof.
-  intros Hb t g MX I. destruct (gstep_shape t g) as [|l s Ht|l s g1 s1 Ht Hab Hst Hdo Hfa Hub P PI]; auto.
+  intros Hb t g MX I. destruct (gstep_shape t g) as [|l s Ht|l s g1 s1 ok Ht Hab Hst Hdo Hfa Hub P PI]; auto.
   - intros t' l' s' H. apply set_thr_lookup in H. destruct H as [[-> E]|[Hne H]].
     + inversion E; subst. simpl. apply (I _ _ _ Ht).
     + apply (I _ _ _ H).
   - intros t' l' s' H. apply adv_lookup in H. destruct H as [[-> [-> ->]]|[Hne H]].
     + (* the stepping thread *)
       destruct (I _ _ _ Ht) as [W N]. split; [apply lstep_wf; auto|].
-      intros m k Hc. destruct (lstep_code c l Hdo Hfa W) as [NS|[m0 [k0 [E1 E2]]]].
+      intros m k Hc. destruct (lstep_code c ok l Hdo Hfa W) as [NS|[m0 [k0 [E1 E2]]]].
       * exfalso. rewrite Hc in NS. apply (NS m). left. reflexivity.
       * rewrite E2 in Hc. inversion Hc; subst m0 k0.
         destruct (PI _ _ E1) as [Hh [-> ->]]. simpl. split; [apply nmem_in; auto | reflexivity].
     + (* another thread *)
-      destruct (pre_other _ _ _ _ _ _ P _ _ _ H) as [s0 [H0 [Eh Et]]].
+      destruct (pre_other _ _ _ _ _ _ _ P _ _ _ H) as [s0 [H0 [Eh Et]]].
       destruct (I _ _ _ H0) as [W N]. split; auto.
       intros m k Hc. destruct (N _ _ Hc) as [Hin Htmp]. rewrite Eh, Et. split; auto.
-      unfold advance; simpl. destruct (pre_cells _ _ _ _ _ _ P) as [->|[m' [k' [Hc' ->]]]]; auto.
+      unfold advance_ok; simpl. destruct (pre_cells _ _ _ _ _ _ _ P) as [->|[m' [k' [Hc' ->]]]]; auto.
       unfold fupd. destruct (m =? m') eqn:E; auto.
       apply Nat.eqb_eq in E; subst m'. exfalso.
       destruct (I _ _ _ Ht) as [_ N']. destruct (N' _ _ Hc') as [Hin' _].
@@ -529,24 +547,24 @@ Proof.
   destruct (I _ _ _ Ht) as [_ N]. destruct (N _ _ Hc) as [Hin Htmp].
   split; auto. split; auto.
   intros Hab Hst Hdo Hfa Hub. unfold gstep. fold g. rewrite Hab, Ht, Hst, Hdo, Hfa, Hub. simpl. rewrite Hc.
-  unfold advance, set_cell; simpl. unfold fupd. rewrite Nat.eqb_refl. rewrite Htmp. reflexivity.
+  unfold advance, advance_ok, set_cell; simpl. unfold fupd. rewrite Nat.eqb_refl. rewrite Htmp. reflexivity.
 Qed.
 
 (* ------------------------------------------------------------------ join *)
 Definition jn_inv (g : gstate) : Prop :=
   forall u lu su, nth_error (thr g) u = Some (lu, su) -> joined su = true -> done lu = true.
 
-Lemma pre_joined : forall t g l s g1 s1, pre t g l s g1 s1 -> joined s1 = joined s.
+Lemma pre_joined : forall t g l s g1 s1 ok, pre t g l s g1 s1 ok -> joined s1 = joined s.
 Proof. intros. inversion H; subst; reflexivity. Qed.
 
 Lemma jn_step : forall t g, jn_inv g -> jn_inv (G t g).
 Proof.
-  intros t g I. destruct (gstep_shape t g) as [|l s Ht|l s g1 s1 Ht Hab Hst Hdo Hfa Hub P PI]; auto.
+  intros t g I. destruct (gstep_shape t g) as [|l s Ht|l s g1 s1 ok Ht Hab Hst Hdo Hfa Hub P PI]; auto.
   - intros u lu su H Hj. apply set_thr_lookup in H. destruct H as [[-> E]|[Hne H]].
     + inversion E; subst. simpl in Hj. eapply I; eauto.
     + eapply I; eauto.
   - intros u lu su H Hj. apply adv_lookup in H. destruct H as [[-> [-> ->]]|[Hne H]].
-    + simpl in Hj. change (joined (bump s1)) with (joined s1) in Hj. rewrite (pre_joined _ _ _ _ _ _ P) in Hj.
+    + simpl in Hj. change (joined (bump ok s1)) with (joined s1) in Hj. rewrite (pre_joined _ _ _ _ _ _ _ P) in Hj.
       rewrite (I _ _ _ Ht Hj) in Hdo. discriminate.
     + inversion P; subst; try (eapply I; eauto; fail).
       * apply set_thr_lookup in H. destruct H as [[-> E]|[? H]].
@@ -576,7 +594,7 @@ Lemma done_stable_step : forall t g u lu, core g u = Some lu -> done lu = true -
 Proof.
   intros t g u lu H Hd. destruct (Nat.eq_dec t u) as [->|Hne]; [|rewrite step_frame; auto].
   unfold core in *. rewrite <- nth_error_map, <- pc_fst in *.
-  destruct (shape_pc _ _ _ (gstep_shape u g)) as [E|[l [n [Hn E]]]]; rewrite E; auto.
+  destruct (shape_pc _ _ _ (gstep_shape u g)) as [E|[l [n [ok [Hn E]]]]]; rewrite E; auto.
   rewrite map_upd. simpl.
   assert (l = lu). { rewrite nth_error_map, Hn in H. simpl in H. congruence. }
   subst l. rewrite lstep_done; auto. rewrite upd_same; auto.
@@ -595,7 +613,7 @@ Theorem join_publishes_gen : forall ps sched sched' t u lu su p l s k,
   aborted g' = false -> started s = true -> done l = false -> fatal l = false -> ub s = false ->
   code l = KOp (OPeek u) :: k ->
   done lu = true /\
-  (forall n, steps su <= n -> alone c n (linit u p) = lu) /\
+  (forall h', alone c (h' ++ hist su) (linit u p) = lu) /\
   option_map (fun ls => seen (snd ls)) (nth_error (thr (G t g')) t) = Some ((u, out lu) :: seen s).
 Proof.
   intros ps sched sched' t u lu su p l s k Hu Hj Hp g' Ht Hab Hst Hdo Hfa Hub Hc.
@@ -606,7 +624,7 @@ Proof.
     { apply done_stable; auto. unfold core. rewrite Hu. reflexivity. }
     unfold core in Hu'. destruct (nth_error (thr g') u) as [[lu' su']|] eqn:Eu; simpl in Hu'; inversion Hu'; subst lu'.
     unfold gstep. rewrite Hab, Ht, Hst, Hdo, Hfa, Hub. simpl. rewrite Hc, Eu.
-    unfold advance; simpl. rewrite nth_error_upd_eq.
+    unfold advance, advance_ok; simpl. rewrite nth_error_upd_eq.
     + reflexivity.
     + apply nth_error_Some. congruence.
 Qed.
@@ -625,7 +643,7 @@ Definition sched_shared : list tid := [0; 0; 1; 2].
 Lemma isolation_refuted_shared : forall c b,
   exists ps sched t,
     match nth_error (thr (run c b true false sched (ginit ps))) t, nth_error ps t with
-    | Some (l, s), Some p => depth (exc l) =? depth (exc (alone c (steps s) (linit t p))) = false
+    | Some (l, s), Some p => depth (exc l) =? depth (exc (alone c (hist s) (linit t p))) = false
     | _, _ => False
     end.
 Proof.
@@ -648,7 +666,7 @@ Qed.
 Lemma isolation_refuted_foreign_walk : forall c b,
   exists ps sched t,
     match nth_error (thr (run c b false true sched (ginit ps))) t, nth_error ps t with
-    | Some (l, s), Some p => length (tls l) =? length (tls (alone c (steps s) (linit t p))) = false
+    | Some (l, s), Some p => length (tls l) =? length (tls (alone c (hist s) (linit t p))) = false
     | _, _ => False
     end.
 Proof.
